@@ -25,7 +25,7 @@
  *
  * output: segments joined by " ; ":  <who>:<event>/<oracle answers>><outputs>|<state>
  *   who     c = client session, s = server endpoint / the accepted server session
- *   event   tnew:now|prog|fail  tsend:<K><mid>:<tok>  io:<[crw]+> (coap_io_do_epoll for ONE event: connect / read / write)
+ *   event   tnew:now|prog|fail  tsend[w]:<K><mid>:<tok> (w = the call waited in coap_client_delay_first)  io:<[crw]+> (coap_io_do_epoll for ONE event: connect / read / write)
  *           acc (accept at the endpoint)  tick (timer fd)  rel  del  free
  *   oracle  env= hs= rec= snd=      (rec=data:<view> is the decoded CoAP-over-TCP message the record carried)
  *   outputs tx:C.<code>.0.<tok> (PDU handed to coap_tls_write) req:<tok>:<payload> rsp:<tok>:<code> nack:<reason>:<tok|->
@@ -496,6 +496,7 @@ int __wrap_coap_io_process_lkd(coap_context_t *ctx, uint32_t timeout_ms) {
   if (!pend_send[0] || ctx != g_cli) return __real_coap_io_process_lkd(ctx, timeout_ms);
   /* the application's coap_send() has not done anything observable yet: its segment starts when the wait is over */
   if (s_open && !s_orc[0] && !s_out[0]) s_open = 0; else seg_close();
+  if (!strncmp(pend_send, "tsend:", 6)) { memmove(pend_send + 6, pend_send + 5, strlen(pend_send + 5) + 1); pend_send[5] = 'w'; }   /* tsendw: */
   in_delay_first++;
   pump_quiet(wait_who, 1, df_cleared);
   in_delay_first--;
